@@ -19,7 +19,7 @@ from vlib.common import Obligation, Result, KnownFindings, log
 def _module_job(job):
     import time
     (mname, src, kind), tier, seed, depth, width, builds = job
-    res = Result("C06", tier, seed, "translation_validation")
+    res = Result("C06", tier, seed, "model_checking")
     t0 = time.time()
     programs = 0
     for level, scope in builds:
@@ -91,7 +91,7 @@ def _module_job(job):
 
 
 def run(tier: str, seed: int, only=None) -> Result:
-    res = Result("C06", tier, seed, "translation_validation")
+    res = Result("C06", tier, seed, "model_checking")
     depth, width = (3, 2) if tier == "quick" else (4, 3)
     builds = [("silent", "all"), ("verbose", "all")] if tier == "quick" else [("silent", "all"), ("verbose", "all"), ("compact", "all")]
     res.assumptions = [
